@@ -21,6 +21,7 @@ import (
 	"time"
 
 	"github.com/sergeii/swat4master/verifharness/internal/core"
+	"github.com/sergeii/swat4master/verifharness/internal/ucops"
 	"github.com/sergeii/swat4master/verifharness/internal/world"
 )
 
@@ -152,6 +153,19 @@ func runHistoryOnce(args []string) []string {
 				out = append(out, outcome, "=")
 			} else {
 				out = append(out, outcome, d)
+				prev = d
+			}
+		case "uc":
+			// a use case of another component run to completion in between (ucops.Client spec)
+			if len(op) != 2 {
+				return []string{"bad-op"}
+			}
+			res := ucops.Client(op[1])(p)
+			d := JoinDump(w.Dump())
+			if d == prev {
+				out = append(out, res, "=")
+			} else {
+				out = append(out, res, d)
 				prev = d
 			}
 		default:
